@@ -1,6 +1,6 @@
 """C09 -- B-spline fit is the weighted least-squares optimum; failure is a status code."""
 
-from .bsplinelib import check_int_sinks, check_ict, check_proto, check_status, check_clip, check_chol_nomut, check_coeff_agree, check_chol_screen
+from .bsplinelib import BSPLINE, check_int_sinks, check_ict, check_proto, check_status, check_clip, check_chol_nomut, check_coeff_agree, check_chol_screen
 
 META = {
     'property': 'C09',
@@ -16,12 +16,15 @@ META = {
         'stored into L[:, 0:n] is the factor of l[:, 0:n]; C09.STATUS - fit returns (-2, zeros) before touching data when too few '
         'breakpoints are good, every return is (status, yfit), maskpoints returns only -1/-2; C09.CLIP - indices stored through in '
         'maskpoints are clamped inside the array; C09.COEFF-AGREE - fit and value select coefficient slots through the same mask expression; C09.NOMUT - cholesky_band / cholesky_solve do not overwrite the caller\'s matrix. '
-        'C09.SCREEN - cholesky_band screens the whole band with np.isfinite before factoring and returns a failure value, maskpoints copes with an empty failure list, and the design matrix entering the normal equations is a1 times the weights on every path. NOT decided: optimality, agreement with a dense solver, polynomial reproduction, linearity in y, L*L^T = A (numerical).'),
-    'floors': {'C09.SCREEN': 3, 'C09.INT-SINK': 10, 'C09.ROWS': 4, 'C09.PROTO': 6, 'C09.SHAPE-JOIN': 1, 'C09.STATUS': 5, 'C09.CLIP': 1, 'C09.NOMUT': 2, 'C09.COEFF-AGREE': 1},
+        'C09.SCREEN - cholesky_band screens the whole band with np.isfinite before factoring and returns a failure value, maskpoints copes with an empty failure list, and the design matrix entering the normal equations is a1 times the weights on every path. C09.FLOAT-OUT - the padded factor returned by cholesky_band and the padded solution returned by cholesky_solve are not allocated in the dtype of their integer-capable argument; NOT decided: optimality, agreement with a dense solver, polynomial reproduction, linearity in y, L*L^T = A (numerical).'),
+    'floors': {'C09.FLOAT-OUT': 2, 'C09.SCREEN': 3, 'C09.INT-SINK': 10, 'C09.ROWS': 4, 'C09.PROTO': 6, 'C09.SHAPE-JOIN': 1, 'C09.STATUS': 5, 'C09.CLIP': 1, 'C09.NOMUT': 2, 'C09.COEFF-AGREE': 1},
 }
 
 
 def run(ctx):
+    from .floatlib import check_float_alloc
+    check_float_alloc(ctx, ctx.repo, 'C09.FLOAT-OUT', [(BSPLINE, 'cholesky_band'), (BSPLINE, 'cholesky_solve')],
+                      'the Cholesky factor of a whole-number matrix, resp. the solution for a whole-number right-hand side, is truncated')
     n = check_int_sinks(ctx, ctx.repo, 'C09.INT-SINK')
     check_ict(ctx, ctx.repo, 'C09.ROWS')
     check_proto(ctx, ctx.repo, 'C09.PROTO')
